@@ -4,6 +4,7 @@ import (
 	"encoding/json"
 	"fmt"
 	"strconv"
+	"strings"
 	"time"
 
 	"github.com/Vedant9500/WTF/internal/constants"
@@ -24,9 +25,10 @@ var c05DBs = [][]int{
 	{0, 2, 3, 4, 5, 9, 17, 22, 7},
 	{4, 5, 6, 8, 14, 21, 0},
 	{1, 2, 3, 4, 24, 9, 19, 22, 8}, // same size as the first
+	nil,                            // index 3: the 40-entry database (more than 10 scoring candidates: limit-dependent re-rank window)
 }
 
-var c05Queries = []string{"git files", "GIT Files", " git files ", "comprss", " comprss ", "tar", "git files tar compress zip qzx"}
+var c05Queries = []string{"git files", "GIT Files", " git files ", "comprss", " comprss ", "tar", "git files tar compress zip qzx", "files folder"}
 
 type c05Opt struct {
 	Name string
@@ -53,6 +55,11 @@ func c05Options() []c05Opt {
 		mk("AllPlatforms", func(o *Opts) { o.AllPlatforms = true }),
 		mk("Platforms", func(o *Opts) { o.Platforms = []string{"windows"} }),
 		mk("NoCrossPlatform", func(o *Opts) { o.NoCrossPlatform = true }),
+		// used by the 40-entry plan only
+		mk("NLP+Limit2", func(o *Opts) { o.UseNLP, o.Limit = true, 2 }),
+		mk("NLP+Limit20", func(o *Opts) { o.UseNLP, o.Limit = true, 20 }),
+		mk("Limit0", func(o *Opts) { o.Limit = 0 }),
+		mk("Limit25", func(o *Opts) { o.Limit = 25 }),
 	}
 }
 
@@ -75,6 +82,7 @@ func (o c05Op) String() string {
 
 type c05Case struct {
 	Entry string  `json:"entry"` // cached | monitored
+	Start int     `json:"start_db,omitempty"`
 	Warm  bool    `json:"warm_start"`
 	Ops   []c05Op `json:"ops"`
 	Descr string  `json:"history,omitempty"`
@@ -82,17 +90,21 @@ type c05Case struct {
 
 // c05World holds the loaded command lists and the memo of fresh answers.
 type c05World struct {
-	cmds  [3][]Cmd               // as loaded (with lower-cased copies)
-	fresh [3]*database.Database  // never touched by the history
-	memo  map[[3]int]string      // (db, q, o) -> digest
+	cmds  [4][]Cmd              // as loaded (with lower-cased copies)
+	fresh [4]*database.Database // never touched by the history
+	memo  map[[3]int]string     // (db, q, o) -> digest
 	opts  []c05Opt
 }
 
 func newC05World(c *lib.Ctx) *c05World {
 	w := &c05World{memo: map[[3]int]string{}, opts: c05Options()}
 	for i, idx := range c05DBs {
-		w.fresh[i] = uMustDB(c, uPick(uPool(), idx))
-		w.cmds[i] = uMustDB(c, uPick(uPool(), idx)).Commands
+		cmds := uPick(uPool(), idx)
+		if idx == nil {
+			cmds = uForty()
+		}
+		w.fresh[i] = uMustDB(c, cmds)
+		w.cmds[i] = uMustDB(c, cmds).Commands
 	}
 	return w
 }
@@ -107,13 +119,36 @@ func (w *c05World) expected(db, q, o int) string {
 	return d
 }
 
-func c05Alphabet(full bool) []c05Op {
+func c05Alphabet(kind string) []c05Op {
 	var ops []c05Op
-	nq, no := len(c05Queries), len(c05Options())
-	for q := 0; q < nq; q++ {
-		for o := 0; o < no; o++ {
-			if !full {
-				// the 30 most colliding searches: three queries that share a key, all options;
+	mut := func(kinds ...string) {
+		for _, k := range kinds {
+			ops = append(ops, c05Op{Kind: k})
+		}
+	}
+	switch kind {
+	case "mutators":
+		// few searches, every mutator: long histories of switches, sweeps, clock and replacements
+		ops = append(ops, c05Op{Kind: "search", Q: 0, O: 0}, c05Op{Kind: "search", Q: 0, O: 7}, c05Op{Kind: "search", Q: 3, O: 5})
+		mut("invalidate", "disable", "enable", "sweep", "adv-half", "adv-ttl")
+		ops = append(ops, c05Op{Kind: "update", DB: 0}, c05Op{Kind: "update", DB: 1}, c05Op{Kind: "update", DB: 2})
+		return ops
+	case "big":
+		// the 40-entry database: limits around the re-rank window, with and without NLP
+		for _, o := range []int{0, 1, 7, 12, 13, 14, 15} {
+			ops = append(ops, c05Op{Kind: "search", Q: 7, O: o})
+		}
+		for _, o := range []int{7, 12, 13} {
+			ops = append(ops, c05Op{Kind: "search", Q: 0, O: o})
+		}
+		mut("invalidate", "disable", "enable")
+		ops = append(ops, c05Op{Kind: "update", DB: 3}, c05Op{Kind: "update", DB: 0})
+		return ops
+	}
+	for q := 0; q < 7; q++ {
+		for o := 0; o < 12; o++ {
+			if kind == "colliding" {
+				// the most colliding searches: three queries that share a key, all options;
 				// the others only with base / fuzzy
 				if q > 2 && !(o == 0 || o == 5) {
 					continue
@@ -122,9 +157,7 @@ func c05Alphabet(full bool) []c05Op {
 			ops = append(ops, c05Op{Kind: "search", Q: q, O: o})
 		}
 	}
-	for _, k := range []string{"invalidate", "disable", "enable", "sweep", "adv-half", "adv-ttl"} {
-		ops = append(ops, c05Op{Kind: k})
-	}
+	mut("invalidate", "disable", "enable", "sweep", "adv-half", "adv-ttl")
 	ops = append(ops, c05Op{Kind: "update", DB: 0}, c05Op{Kind: "update", DB: 1}, c05Op{Kind: "update", DB: 2})
 	return ops
 }
@@ -134,8 +167,8 @@ func c05Run1(w *c05World, cs c05Case) (*lib.Violation, string) {
 	vtime.Enable()
 	defer vtime.Disable()
 	vhost.Set("linux")
-	cur := 0
-	cmds := append([]Cmd{}, w.cmds[0]...)
+	cur := cs.Start
+	cmds := append([]Cmd{}, w.cmds[cur]...)
 	base := &database.Database{Commands: cmds}
 	mdb := database.NewMonitoredDatabase(base)
 	mdb.UpdateDatabase(cmds) // builds index and re-ranker through the public API
@@ -217,7 +250,7 @@ func c05Run(c *lib.Ctx) {
 	// answers must differ between base and the delta, on the first database
 	if c.Shard == 0 {
 		var missing []string
-		for o := 1; o < len(w.opts); o++ {
+		for o := 1; o < 12; o++ {
 			ref := 0
 			if w.opts[o].Name == "FuzzyThreshold" {
 				ref = 5
@@ -252,18 +285,26 @@ func c05Run(c *lib.Ctx) {
 		}
 	}
 	type plan struct {
-		full  bool
+		kind  string
 		depth int
+		start int
 	}
-	plans := []plan{{true, 3}}
+	plans := []plan{{"full", 3, 0}, {"mutators", 5, 0}, {"big", 3, 3}}
 	if c.Thorough() {
-		plans = []plan{{true, 3}, {false, 4}}
+		plans = []plan{{"full", 3, 0}, {"colliding", 4, 0}, {"mutators", 6, 0}, {"big", 4, 3}}
+	}
+	if c.Shard == 0 {
+		// the limit-dependent re-rank window must be observable on the 40-entry database
+		a, b := w.expected(3, 7, 12), w.expected(3, 7, 13)
+		if strings.HasPrefix(b, a) {
+			c.Fail("vacuous: on the 40-entry database the NLP answer at limit 2 is a prefix of the answer at limit 20")
+		}
 	}
 	var idx int64
 	selfCheck := 0
 	seen := map[string]bool{}
 	for _, pl := range plans {
-		alpha := c05Alphabet(pl.full)
+		alpha := c05Alphabet(pl.kind)
 		for _, seq := range uSequences(len(alpha), pl.depth) {
 			// a history without a search as its last step observes nothing new
 			if alpha[seq[len(seq)-1]].Kind != "search" {
@@ -285,7 +326,10 @@ func c05Run(c *lib.Ctx) {
 					if warm && len(ops) > 2 {
 						continue
 					}
-					cs := c05Case{Entry: entry, Warm: warm, Ops: ops}
+					if warm && pl.kind != "full" {
+						continue
+					}
+					cs := c05Case{Entry: entry, Warm: warm, Ops: ops, Start: pl.start}
 					if warm {
 						// warm start: every query searched once with base options first
 						var pre []c05Op
@@ -334,7 +378,7 @@ func init() {
 	_ = strconv.Itoa
 	lib.Register(&lib.Check{
 		ID: "C05", Level: "model_checking",
-		Rule: "sequence-mode exploration: every history ending in a search of length <=3 over the full alphabet (7 queries incl. case variant, padded variants, a typo and a 6-term query x 12 option settings = base + one single-field delta per SearchOptions field, + invalidate, disable, enable, sweep, advance TTL/2, advance TTL+1s, replace database A/B/C (C has A's size) = 93 operations) and (thorough) of length <=4 over the 38+8 most colliding operations; entry points SearchWithOptionsAndCache and SearchWithOptionsAndMonitoring; cold and warm start; virtual clock. After every search the answer must equal, bit for bit, SearchUniversal on a freshly loaded copy of the current commands. evaluations = histories executed on the real objects (= traces validated); non-trivial = histories with a distinct sequence of answers",
+		Rule:      "sequence-mode exploration: every history ending in a search of length <=3 over the full alphabet (7 queries incl. case variant, padded variants, a typo and a 6-term query x 12 option settings = base + one single-field delta per SearchOptions field, + invalidate, disable, enable, sweep, advance TTL/2, advance TTL+1s, replace database A/B/C (C has A's size) = 93 operations) + every history of length <=5 (thorough 6) over 3 searches and all 9 mutators (long runs of switches, sweeps, clock advances and replacements) + every history of length <=3 (thorough 4) on a 40-entry database over 10 searches with limits {0,2,3,20,25} with and without NLP (limit-dependent re-rank window) and 5 mutators + (thorough) of length <=4 over the 38+8 most colliding operations; entry points SearchWithOptionsAndCache and SearchWithOptionsAndMonitoring; cold and warm start; virtual clock. After every search the answer must equal, bit for bit, SearchUniversal on a freshly loaded copy of the current commands. evaluations = histories executed on the real objects (= traces validated); non-trivial = histories with a distinct sequence of answers",
 		Assume:    []string{"host pinned, map order pinned, clock virtual (vtime)", "non-finite option values are outside the option domain"},
 		QuickSecs: 200, ThorSecs: 1800,
 		Run: c05Run,
